@@ -88,6 +88,18 @@ SOURCE_TIES = {
               "coq/model/ESpec.v's espec_parse, quick_check, show_key and key equality equal the translation of the current "
               "src/element_specification.rs (parse / parse_with / FromStr, quick_check_str, Display, PartialEq<str>, Borrow, Hash, Eq; 13 functions; "
               "tools/gen_espec.py -> coq/gen/ESpecGen.v; proofs/ESpecTie.v)"),
+    "comp": ("gen_comp.py", "proofs/CompTie.vo",
+             "the inherent methods of ChemicalCompositionVec and ChemicalCompositionMap (48 functions: find/get/set/inc, string-keyed access, "
+             "Index/IndexMut, calc_mass/mass/fmass and the cache, _add_from/_sub_from/_mul_by ...) translated from the current "
+             "composition_list.rs / composition_map.rs equal the model's operations (Comp.v, CompOps.apply, ESpec.v accessors); map-form ties "
+             "that depend on insertion order are exact for the identity iteration-order oracle (tools/gen_comp.py -> coq/gen/CompGen.v; proofs/CompTie.v)"),
+    "render": ("gen_render.py", "proofs/RenderTie.vo",
+               "to_formula and the three Display impls translated from the current formula.rs / composition files equal Render.to_formula on entry "
+               "lists with distinct keys (tools/gen_render.py -> coq/gen/RenderGen.v; proofs/RenderTie.v)"),
+    "cbind": ("gen_cbind.py", "proofs/CBindTie.vo",
+              "the control structure of all 11 extern \"C\" functions of bindings/c/src/lib.rs (out-pointer writes, which parser on which text, "
+              "match arms, error codes incl. the + 1, allocation and free) translated from the current source equals the handle-table model's "
+              "step for that call (tools/gen_cbind.py -> coq/gen/CBindGen.v; proofs/CBindTie.v)"),
 }
 
 
@@ -109,7 +121,7 @@ def source_tie(run, parts=("mz",)):
                 ok = False
                 detail = "%s no longer checks: " % target + "\n".join(out2.strip().splitlines()[-6:])
         res[k] = {"established": ok, "what": what, "detail": detail[-600:]}
-    run.cov["source_level_tie"] = res
+    run.cov.setdefault("source_level_tie", {}).update(res)
     ok = all(r["established"] for r in res.values())
     for k, r in res.items():
         if r["established"]:
